@@ -203,6 +203,8 @@ APOS = z3.Const("amc_argpos", A_(Ref, I_))      # ghost inverse of the argument 
 
 
 GATE = z3.Bool("amc_trace_clauses")
+from pyvc import solve as _solve  # noqa: E402
+_solve.GATES.add("amc_trace_clauses")      # see pyvc/solve.py gate_filter
 # Every clause about the ghost trace is stated as `GATE -> clause` with GATE a FREE Boolean constant that nothing constrains: the
 # obligations are proved for both of its values, in particular for True (the lemmas below take the post-condition with GATE = True).
 # Purpose: in the obligations that restate the no-context post-condition the solver may leave the trace quantifiers inactive
